@@ -186,8 +186,6 @@ Qed.
 (** leaves: every leaf with another key keeps its annotation; the written key gets a new leaf object *)
 Definition other (k : bytes) (x : bytes * bytes * option nref) : bool := negb (beq (lkey x) k).
 
-Lemma beq_refl : forall k, beq k k = true.
-Proof. intros k. unfold beq. rewrite bcmp_refl. reflexivity. Qed.
 
 Lemma aleaves_set_other : forall t k v t' u, aset t k v = Some (t', u) ->
   filter (other k) (aleaves t') = filter (other k) (aleaves t).
